@@ -447,6 +447,14 @@ func (s *Sim) Request(ctx context.Context, from, to p2p.PeerID, procedure string
 				}
 			}
 		}
+		if respErr == nil && procedure == "getBlocksFromId" && s.Adv != nil {
+			if rn := s.nodeByPeer(to); rn != nil && rn.IsAdversary {
+				if alt := s.Adv.SwapServed(respData); alt != nil {
+					respData = alt
+					s.count("byz_serving_payload_swapped_twin")
+				}
+			}
+		}
 		if respErr == nil && len(respData) > 0 {
 			switch fault {
 			case rpcTruncate:
